@@ -7,6 +7,7 @@ import Autog.Lemmas.HasCyclesTotal
 import Autog.Lemmas.LongestPathTotal
 import Autog.Lemmas.DfsBreakerTotal
 import Autog.Lemmas.ComponentsTotal
+import Autog.Lemmas.TightTreeFuel
 /-! # C01 — Layout always returns
 
     PARTIAL. In the composed model `layoutModel` (Autog/Model/Pipeline.lean) every explicit `panic` of the modelled code, every
@@ -26,6 +27,10 @@ import Autog.Lemmas.ComponentsTotal
       the graph `Populate` builds has incidence lists inside the edge store (`populate_incWF`), and the component walk, which recurses
       once per marked EDGE, lowers a measure of (todo + 1) per frame plus 2·E + 1 per unmarked edge at every step
       (`C01_component_walk_never_out_of_fuel`), starting below the model's budget (E + 2)(2E + 2) + 2;
+    * `C01_tight_tree_total`, `C01_tree_numbering_total`: the two depth-first walks inside the network simplex — the tight-tree search run
+      in every round of `feasibleTree`, and the lim/low numbering run after every pivot — are edge-marking walks like the component
+      walk and return, by the same measure, on every state whose incidence lists stay inside the edge store, within the model's
+      budget (E + 2)(2E + 2) + 2V + 4;
     * on the machines the models run: the cycle test is complete (`C01_hasCycles_complete`), the greedy breaker ranks every node
       exactly once for every pick oracle (`C01_greedy_assigns_every_node_once`), Kahn initialisation processes every node of a DAG
       (`C01_ns_init_processes_every_node`), the component DFS closes (`C01_components_closed_connected`).
@@ -95,6 +100,10 @@ theorem C01_component_walk_never_out_of_fuel : type_of% @ComponentsDfs.run_some 
 
 example : ∃ cs, preProcess {} [("a", "b"), ("b", "a"), ("c", "c"), ("a", "b")] = .ok cs :=
   preProcess_total {} _ (by decide)
+
+theorem C01_tight_tree_total : type_of% @tightTree_total := @tightTree_total
+theorem C01_tree_numbering_total : type_of% @setStreeValues_total := @setStreeValues_total
+theorem C01_tight_tree_never_out_of_fuel : type_of% @tightTreeRun_total := @tightTreeRun_total
 
 theorem C01_cycle_test_total : type_of% @hasCycles_total := @hasCycles_total
 /-- the longest-path traversal returns on every well-formed acyclic state -/
